@@ -161,6 +161,7 @@ TReset ==
     /\ dead' = [c \in Conns |-> FALSE]
     /\ conn' = [c \in Conns |-> "idle"]
     /\ th' = [t \in Threads |-> "idle"]
+    /\ par' = [t \in Threads |-> "live"]
     /\ act' = Lbl("Init", "", 0)
 
 TArrive == Step("Arrive") /\ Arrive(Ev.p, Ev.r) /\ UNCHANGED <<stopCalled, stop2Called, hung>>
@@ -203,6 +204,8 @@ TThAdd ==
     /\ \/ ThAdd(Ev.p) /\ th'[Ev.p] = (IF Ev.ok THEN "live" ELSE "refused")
        \/ Ev.ok /\ th[Ev.p] = "live" /\ Skip        \* joined above
     /\ UNCHANGED <<stopCalled, stop2Called, hung>>
+\* the parent context handed to AddContext is cancelled (logged before cancel() is called)
+TCancelParent == Step("CancelParent") /\ CancelParent(Ev.p) /\ UNCHANGED <<stopCalled, stop2Called, hung>>
 TThDone == Step("ThDone") /\ ThDone(Ev.p) /\ UNCHANGED <<stopCalled, stop2Called, hung>>
 
 TAllowCheck == Step("AllowCheck") /\ AllowCheck(Ev.p) /\ UNCHANGED <<stopCalled, stop2Called, hung>>
@@ -217,7 +220,7 @@ TraceInit == Init /\ l = 1 /\ stopCalled = FALSE /\ stop2Called = FALSE /\ hung 
 
 TraceNext ==
     \/ TReset \/ TArrive \/ TEnter \/ TExit \/ TAnswered \/ TFailed \/ TDisconnect \/ TQuiesce
-    \/ TStopCall \/ TStopReturn \/ TStop2Call \/ TStop2Return \/ TThAdd \/ TThDone
+    \/ TStopCall \/ TStopReturn \/ TStop2Call \/ TStop2Return \/ TCancelParent \/ TThAdd \/ TThDone
     \/ TAllowCheck \/ TRefused \/ TRejected \/ THandshake \/ THangup
     \/ HiddenRpc \/ HiddenStop \/ HiddenConn \/ HiddenJoin
 
